@@ -60,6 +60,11 @@ def run_witness(w):
         except subprocess.TimeoutExpired as e:
             out = (e.stdout.decode() if isinstance(e.stdout, bytes) else (e.stdout or ''))
             return {'violates': True, 'finished': False, 'output_before_hang': [l for l in out.split('\n') if l][-4:], 'required': w.get('required')}
+    if kind == 'clock':
+        import subprocess
+        r = subprocess.run([replaytool.REPLAY_BIN, 'clock', str(w['ticks'])], capture_output=True, text=True, timeout=120)
+        out = r.stdout.strip()
+        return {'violates': not out.startswith('ok '), 'output': out, 'required': w.get('required')}
     if kind == 'history':
         import refmodel
         r = refmodel.run_history(_dec(w['ops']))
@@ -187,10 +192,19 @@ def gen_refmodel(pid, f):
 
 # C16: a command that does not return.  The session is run under a watchdog; not finishing is the witness.
 @generator(r'kani/store_remove_if|ownership\.|no_call_under_guard')
+def gen_clock(pid, f):
+    # BOUNDED: 2^23 ticks of the real SystemTimer (97 days of seconds)
+    w = {'kind': 'clock', 'ticks': 1 << 23, 'required': 'after n calls of add_second the real SystemTimer reads n (n = 1 .. 2^23)',
+         'what': 'the server clock does not count the seconds it was ticked (output: "bad <ticks> <timestamp read>")'}
+    return w if run_witness(w)['violates'] else None
+
 def gen_hang(pid, f):
     V = b'v' * 100
     scenarios = [
         ['policy random 300'] + ['feed ' + f_set(b'k%d' % i, V).hex() for i in range(6)],                       # stores that trigger the eviction sweep
+        ['policy random 300', 'feed ' + f_set(b'big', b'v' * 1000).hex()] + ['feed ' + f_set(b'k%d' % i, V).hex() for i in range(3)],  # one item above the whole memory limit, then more stores (the sweep empties the store)
+        ['policy random 300'] + ['feed ' + f_set(b'k%d' % i, b'v' * n).hex() for i, n in enumerate([10, 290, 10, 301, 1, 299, 300, 5])] + ['feed ' + f_key(0, b'k1').hex()],
+        ['policy random 100'] + ['feed ' + f_set(b'same', b'v' * 50).hex()] * 5 + ['feed ' + f_key(0, b'same').hex()],   # the same key stored again and again (every store is accounted)
         ['feed ' + f_set(b'k', V).hex(), 'feed ' + f_set(b'k', V, cas=77).hex(), 'feed ' + f_set(b'k', V, cas=1).hex()],   # CAS mismatch / match on a present key
         ['feed ' + f_set(b'k', V, exp=1).hex(), 'tick 5', 'feed ' + f_key(0, b'k').hex(), 'feed ' + f_flush().hex(), 'feed ' + f_flush(5).hex()],
     ]
@@ -302,7 +316,7 @@ def gen_policy(pid, f):
 def gen_conc_store(pid, f):
     inits = {'present': ['init set k v0 0 0'], 'present-expired': ['init set k v0 0 5', 'tick 10'], 'absent': []}
     t1s = ['get k', 'set k one 0 0', 'set k one 1 0', 'delete k 0', 'delete k 1']
-    t2s = ['get k', 'set k two 0 0', 'set k two 1 0', 'delete k 0', 'delete k 1']
+    t2s = ['get k', 'set k two 0 0', 'set k v0 0 0', 'set k two 1 0', 'delete k 0', 'delete k 1']   # `set k v0`: a refresh with the same payload
     for iname, init in inits.items():
         for a in t1s:
             for b in t2s:
@@ -314,3 +328,12 @@ def gen_conc_store(pid, f):
                     if run_witness(w)['violates']:
                         return w
     return None
+
+
+# Bounded stand-ins registered per property in specs/properties.json (`bounded_twins`): for functions that no contract
+# within reach covers.  Labelled bounded in the evidence; never counted as proved.
+BOUNDED_TWINS = {
+    'hang': {'gen': gen_hang, 'fn': 'memcache::random_policy::RandomPolicy::incr_mem_usage',
+             'bound': '6 sessions (stores under a 300-byte memory limit with values below, at and above the limit; CAS stores; expiry + flush), watchdog 10 s each',
+             'what': 'every command of the scenario sessions returns (the eviction loop of incr_mem_usage terminates)'},
+}
